@@ -62,7 +62,10 @@ def gen(rng, tier):
 
 def corpus():
     # F12 (open): restricting the only variable
-    return [{"kind": "ops", "type": {"kind": "plain", "max": [2]}, "seed": 1, "nv": 1, "shape": "chain", "ops": [["restrict", 0, 1]]}]
+    return [{"kind": "ops", "type": {"kind": "plain", "max": [2]}, "seed": 1, "nv": 1, "shape": "chain", "ops": [["restrict", 0, 1]]},
+            # F17 (fixed): in-place restrict of the first variable of a tree
+            {"kind": "ops", "type": {"kind": "tally", "n": 3, "k": 1, "c": 1}, "seed": 103369674, "nv": 2, "shape": "tree",
+             "ops": [["restrict", 0, 1, True]]}]
 
 
 # ----------------------------------------------------------------------------- implementation side
